@@ -84,6 +84,9 @@ pub fn san_values() -> Vec<(String, Vec<SanSpec>)> {
         ("empty dns label".into(), vec![SanSpec::Dns("".into())]),
         ("127-char dns".into(), vec![SanSpec::Dns("x".repeat(127))]),
         ("128-char dns".into(), vec![SanSpec::Dns("y".repeat(128))]),
+        ("ipv4-mapped ipv6".into(), vec![SanSpec::Ip(vec![0, 0, 0, 0, 0, 0, 0, 0, 0, 0, 0xff, 0xff, 192, 0, 2, 1])]),
+        ("ipv4-compatible ipv6 + ::1 + ::".into(), vec![SanSpec::Ip(vec![0, 0, 0, 0, 0, 0, 0, 0, 0, 0, 0, 0, 192, 0, 2, 1]), SanSpec::Ip(vec![0, 0, 0, 0, 0, 0, 0, 0, 0, 0, 0, 0, 0, 0, 0, 1]), SanSpec::Ip(vec![0; 16])]),
+        ("ipv4 0.0.0.0 + 255.255.255.255".into(), vec![SanSpec::Ip(vec![0, 0, 0, 0]), SanSpec::Ip(vec![255, 255, 255, 255])]),
     ]
 }
 
